@@ -191,6 +191,15 @@ PROPS["C13"] = dict(
                 [("ECParametersContent::parse", [t], 1, 3) for t in range(0, 6)],
     expect_entries=KX_ENTRIES, thorough_mult=20,
 )
+C11_ENTRIES = ["parse_tls_raw_record", "parse_tls_encrypted", "parse_tls_plaintext", "parse_tls_message_alert", "parse_tls_message_heartbeat",
+               "parse_tls_message_handshake", "parse_tls_extension", "parse_digitally_signed", "parse_ec_parameters",
+               "parse_ct_signed_certificate_timestamp", "parse_ct_signed_certificate_timestamp_list"]
+PROPS["C11"] = dict(
+    families=[("record", 100), ("handshake", 200), ("ext", 200), ("kx", 60), ("ct", 60)],
+    corpus_entries=C11_ENTRIES, mutate_entries=[], mutate_budget=0, mutate_sources=0, small_scope=[],
+    expect_entries=C11_ENTRIES + EXT_SINGLE + KX_ENTRIES + HS_ENTRIES + ["parse_tls_record_with_header"] + MSG_ENTRIES,
+    thorough_mult=10,
+)
 CT_ENTRIES = ["parse_ct_signed_certificate_timestamp", "parse_ct_signed_certificate_timestamp_list"]
 PROPS["C14"] = dict(
     families=[("ct", 300)], corpus_entries=CT_ENTRIES, mutate_entries=CT_ENTRIES, mutate_budget=60, mutate_sources=300,
@@ -503,6 +512,60 @@ def _ext_type_sweep(tier, rng):
                 out.append(Case("%s %s" % (e, enc.hex()), exp, "typesweep"))
     return out
 
+def _enum_sweeps(tier, rng):
+    """C11: for each enumerated field, every value of its integer domain inside a fixed well-formed structure,
+    with the expectation written out (value unchanged).  u8 fields: all 256 values; u16 fields: all 65536 values
+    (both tiers: the sweep is complete over each field's domain)."""
+    from vlib import Case
+    out = []
+    R = "00" * 32
+    k = rng.randrange(4)
+    def u16s():
+        return range(65536)
+    def add(line, exp): out.append(Case(line, exp, "enumsweep"))
+    for t in range(256):
+        add("parse_tls_raw_record %02x03030001aa" % t, "(ok @_+0 (Raw (Hdr %d 771 1) #5:aa))" % t)
+        add("parse_tls_encrypted %02x03030001aa" % t, "(ok @_+0 (Encrypted (Hdr %d 771 1) #5:aa))" % t)
+        add("parse_tls_message_heartbeat 3 %02x0000" % t, "(ok @_+0 [(Heartbeat %d 0 #_:)])" % t)
+        add("parse_tls_plaintext 1803030004%02x0001bb" % t, "(ok @_+0 (Plaintext (Hdr 24 771 4) [(Heartbeat %d 1 #8:bb)]))" % t)
+        add("parse_tls_message_handshake 01000029" + "0303" + R + "00" + "0002" + "1301" + "01" + "%02x" % t,
+            "(ok @_+0 (Handshake (ClientHello 771 #6:%s None [4865] [%d] None)))" % (R, t))
+        add("parse_tls_message_handshake 02000026" + "0303" + R + "00" + "1301" + "%02x" % t,
+            "(ok @_+0 (Handshake (ServerHello 771 #6:%s None 4865 %d None)))" % (R, t))
+        add("parse_tls_message_handshake 0d00000801%02x0002040300 00".replace(" ", "") % t,
+            "(ok @_+0 (Handshake (CertificateRequest [%d] (Some [1027]) [])))" % t)
+        add("parse_tls_message_handshake 16000005%02x000001aa" % t, "(ok @_+0 (Handshake (CertificateStatus %d #8:aa)))" % t)
+        add("parse_tls_message_handshake 18000001%02x" % t, "(ok @_+0 (Handshake (KeyUpdate %d)))" % t)
+        add("parse_tls_extension 000000060004%02x000161" % t, "(ok @_+0 (SNI [( %d #9:61)]))" % t)
+        add("parse_tls_extension 00050001%02x" % t, "(ok @_+0 (StatusRequest (Some ( %d #_:))))" % t)
+        add("parse_tls_extension 002d000201%02x" % t, "(ok @_+0 (PskExchangeModes x%02x))" % t)
+        add("parse_tls_extension 000b000201%02x" % t, "(ok @_+0 (EcPointFormats #5:%02x))" % t)
+        add("parse_digitally_signed %02x010001aa" % t, "(ok @_+0 (Signed (Some ( %d 1)) #4:aa))" % t)
+        add("parse_digitally_signed 04%02x0001aa" % t, "(ok @_+0 (Signed (Some ( 4 %d)) #4:aa))" % t)
+        sct = "%02x" % t + R + "0000000000000001" + "0000" + "0403" + "0000"
+        add("parse_ct_signed_certificate_timestamp 002f" + sct,
+            "(ok @_+0 (SCT %d #3:%s 1 #_: (Signed (Some ( 4 3)) #_:)))" % (t, R))
+        one = "002f" + "00" + sct[2:]
+        add("parse_ct_signed_certificate_timestamp_list 0093" + one + "002f" + sct + one,
+            "(ok @_+0 [(SCT 0 #5:%s 1 #_: (Signed (Some ( 4 3)) #_:)) (SCT %d #54:%s 1 #_: (Signed (Some ( 4 3)) #_:)) (SCT 0 #103:%s 1 #_: (Signed (Some ( 4 3)) #_:))])" % (R, t, R, R))
+    # alert: all 65536 (level, description) pairs in both tiers
+    for v in range(65536):
+        add("parse_tls_message_alert %04x" % v, "(ok @_+0 (Alert %d %d))" % (v >> 8, v & 255))
+    for v in u16s():
+        add("parse_tls_raw_record 17%04x0001aa" % v, "(ok @_+0 (Raw (Hdr 23 %d 1) #5:aa))" % v)
+        add("parse_tls_encrypted 17%04x0001aa" % v, "(ok @_+0 (Encrypted (Hdr 23 %d 1) #5:aa))" % v)
+        add("parse_tls_message_handshake 01000029" + "%04x" % v + R + "00" + "0002" + "1301" + "0100",
+            "(ok @_+0 (Handshake (ClientHello %d #6:%s None [4865] [0] None)))" % (v, R))
+        add("parse_tls_message_handshake 0100002b" + "0303" + R + "00" + "0004" + "%04x" % v + "1301" + "0100",
+            "(ok @_+0 (Handshake (ClientHello 771 #6:%s None [%d 4865] [0] None)))" % (R, v))
+        add("parse_tls_message_handshake 02000026" + "0303" + R + "00" + "%04x" % v + "00",
+            "(ok @_+0 (Handshake (ServerHello 771 #6:%s None %d 0 None)))" % (R, v))
+        add("parse_tls_message_handshake 0d0000080140 0002%04x0000".replace(" ", "") % v,
+            "(ok @_+0 (Handshake (CertificateRequest [64] (Some [%d]) [])))" % v)
+        add("parse_tls_extension 000a00060004%04x0017" % v, "(ok @_+0 (EllipticCurves [%d 23]))" % v)
+        add("parse_tls_extension 000d00040002%04x" % v, "(ok @_+0 (SignatureAlgorithms [%d]))" % v)
+    return out
+
 PROPS["C09"] = dict(
     families=[], corpus_entries=[], small_scope=[], thorough_mult=1,
     configs=["serialize"], spec={"@ser": "spec.@ser"},
@@ -590,6 +653,7 @@ def extra_cases(pid, tier, seed, rng):
     if pid == "C09": return _ser_cases(tier, rng)
     if pid == "C05": return _ext_type_sweep(tier, rng)
     if pid == "C13": return _kx_sweeps(tier, rng)
+    if pid == "C11": return _enum_sweeps(tier, rng)
     if pid == "C07": return _defrag_histories(tier, seed, rng)
     if pid == "C02": return _length_sweep(tier, rng)
     if pid == "C12": return _cipher_cases(tier, rng)
